@@ -351,11 +351,6 @@ func defOf(e sx.Sexp) def {
 		}
 		d.hasSer = true
 		d.ser = namesOf(s.Args())
-		if repeats(d.ser) {
-			// outside the universe: a serialization list with a repeated name is accepted by InitFromHash and the
-			// named constructor then indexes out of range (name→position has fewer entries than the attribute list)
-			panic(fmt.Errorf("serialization with a repeated name %s", s))
-		}
 	} else if s.Atom != "-" {
 		panic(fmt.Errorf("bad serialization %s", s))
 	}
